@@ -315,6 +315,8 @@ func triviaAlternatives(g Gap, rich bool) [][]string {
 		{tH('w', 1, 2)},
 		{tC(sp + "/*"), tH('c', 0, 2), tC("*/")},
 		{tC(sp + "#"), tH('c', 0, 1), tC("\n")},
+		// a block comment holding any one byte: line terminators (LF, lone CR) inside a token
+		{tC(sp + "/*"), tH('a', 1, 1), tC("*/")},
 	}
 	if g.BeforeCloseTag {
 		// a one-line comment ended by the close tag that follows; its last byte may be
